@@ -104,7 +104,9 @@ func (r *Reader) validate() error {
 			break
 		}
 	}
-	if !hasSlide {
+	// (slide parts may have any name: with a relationships part the declared
+	// slide list is resolved in parseSlides, which reports a deck without slides)
+	if !hasSlide && !fileMap["ppt/_rels/presentation.xml.rels"] {
 		return fmt.Errorf("no slides found in presentation")
 	}
 
